@@ -1,9 +1,9 @@
 /-
-The witness of `no_stuck_acyclic_full_fails` (C01): a partial join re-run by its late branch
-completes while the workflow is PAUSED with the stale `processed` flag of its first completion;
-`resume` never continues it, and the later `join: all` waits forever.  Replayed event by event on
-the real engine (corpus/C01/stale_processed_join.json): rows and pending deliveries equal after
-every event, the real execution ends RUNNING with nothing deliverable.
+A concrete fork / partial-join / join definition used for the non-vacuity examples of the liveness
+theorems of C01, and the former counter-witness of `no_stuck_acyclic` (a partial join re-run by its
+late branch completing while the workflow is PAUSED: before the fix "re-opening a join resets its
+processed flag" `resume` never continued it and the later `join: all` waited for ever) kept as a
+regression: corpus/C01/stale_processed_join.json replays the same history on the real engine.
 -/
 import Mistral.Lemmas.LiveDefs2
 namespace Mistral.Engine.Live
@@ -65,89 +65,6 @@ end Mistral.Engine.Live
 namespace Mistral.Engine.Live
 open Mistral Mistral.Join Mistral.Engine
 
-theorem jobRefresh_stays_waiting (sp : Spec) (w : World) (t : Tid) (r : TaskRow) (k : JoinKind) (L : Logical)
-    (hp : w.pending.contains (.jobRefresh t) = true) (hf : findTask w t = some r) (hst : r.state = .WAITING)
-    (hwf : isCompleted w.wf = false) (hj : isJoin sp t.1 = some k)
-    (hL : joinLogicalState sp.graph (rowsOf w) (fuelFor sp) t.1 k = some L) (hLs : L.state = .WAITING) :
-    (step sp w (.deliver (.jobRefresh t))).wf = w.wf ∧
-    (step sp w (.deliver (.jobRefresh t))).pending = removeFirst w.pending (.jobRefresh t) := by
-  have hf' : findTask { w with pending := removeFirst w.pending (.jobRefresh t) } t = some r := hf
-  have hL' : joinLogicalState sp.graph (rowsOf { w with pending := removeFirst w.pending (.jobRefresh t) })
-      (fuelFor sp) t.1 k = some L := hL
-  have hc : isCompleted St.WAITING = false := by decide
-  simp only [step, hp, Bool.not_true, Bool.false_eq_true, if_false, hf', hst, hc, hwf, hj, hL', hLs]
-  simp
-
-def wRows : List Row :=
-  [⟨"a", .SUCCESS, [("j", "on-success")]⟩, ⟨"b", .SUCCESS, [("j", "on-success")]⟩,
-   ⟨"j", .SUCCESS, [("k", "on-success")]⟩, ⟨"e", .SUCCESS, [("z", "on-success")]⟩,
-   ⟨"z", .WAITING, []⟩]
-
-theorem wRoute_k : possibleRoute wGraph wRows 200 "k" 1 = some (true, 1) := by
-  show possibleRoute wGraph wRows (199 + 1) "k" 1 = _
-  have hin : inbound wGraph "k" = [⟨"j", some (.count 1), ["k"], ["e"], [], []⟩] := by
-    simp [inbound, wGraph, outNames, clause]
-  unfold possibleRoute
-  simp only [hin, List.isEmpty_cons]
-  have hc : isCompleted St.SUCCESS = true := by decide
-  simp [possibleRoute.loop, findRow, wRows, routesTo, hc]
-
-theorem wJoin_z : ∃ L, joinLogicalState wGraph wRows 200 "z" .all = some L ∧ L.state = .WAITING := by
-  have hin : inbound wGraph "z" = [⟨"k", none, ["z"], [], [], []⟩, ⟨"e", none, ["z"], [], [], []⟩] := by
-    simp [inbound, wGraph, outNames, clause]
-  have hc : isCompleted St.SUCCESS = true := by decide
-  have hk : inducedState wGraph wRows 200 ⟨"k", none, ["z"], [], [], []⟩ "z" = some ⟨"k", false, .WAITING, 1, none⟩ := by
-    simp [inducedState, wRoute_k]
-    simp [findRow, wRows]
-  have he : inducedState wGraph wRows 200 ⟨"e", none, ["z"], [], [], []⟩ "z" = some ⟨"e", true, .RUNNING, 1, some "on-success"⟩ := by
-    simp [inducedState, findRow, wRows, hc]
-  unfold joinLogicalState
-  simp only [hin, List.isEmpty_cons]
-  simp [List.mapM_cons, hk, he, Join.decide, countState]
-
-
-def rowTup (r : Row) : String × St × List (String × String) := (r.name, r.state, r.nextTasks)
-def tupRow (p : String × St × List (String × String)) : Row := ⟨p.1, p.2.1, p.2.2⟩
-
-theorem rows_of_tups (rows : List Row) (l : List (String × St × List (String × String)))
-    (h : rows.map rowTup = l) : rows = l.map tupRow := by
-  subst h
-  rw [List.map_map]
-  have : tupRow ∘ rowTup = id := by funext r; cases r; rfl
-  rw [this, List.map_id]
-
-theorem wEvents_split : wEvents = wEvents.take 34 ++ [.deliver (.jobRefresh ("z", 0))] := by rfl
-
-theorem run_snoc (sp : Spec) (l : List Event) (e : Event) : run sp (l ++ [e]) = step sp (run sp l) e := by
-  simp [run, List.foldl_append]
-
-theorem w34_wf : (run wSpec (wEvents.take 34)).wf = .RUNNING := by decide +kernel
-theorem w34_pending : (run wSpec (wEvents.take 34)).pending = [.jobRefresh ("z", 0)] := by decide +kernel
-theorem w34_rows : (rowsOf (run wSpec (wEvents.take 34))).map rowTup =
-    [("a", .SUCCESS, [("j", "on-success")]), ("b", .SUCCESS, [("j", "on-success")]),
-     ("j", .SUCCESS, [("k", "on-success")]), ("e", .SUCCESS, [("z", "on-success")]),
-     ("z", .WAITING, [])] := by decide +kernel
-theorem w34_z : ((findTask (run wSpec (wEvents.take 34)) ("z", 0)).map fun r => r.state) = some .WAITING := by
-  decide +kernel
-theorem wJoin_kind : isJoin wSpec "z" = some .all := by decide +kernel
-
-theorem witness_stuck : (run wSpec wEvents).wf = .RUNNING ∧ (run wSpec wEvents).pending = [] := by
-  rw [wEvents_split, run_snoc]
-  have hrows : rowsOf (run wSpec (wEvents.take 34)) = wRows := by
-    rw [rows_of_tups _ _ w34_rows]; rfl
-  obtain ⟨L, hL, hLs⟩ := wJoin_z
-  have hz := w34_z
-  cases hf : findTask (run wSpec (wEvents.take 34)) ("z", 0) with
-  | none => rw [hf] at hz; simp at hz
-  | some r =>
-    rw [hf] at hz
-    have hst : r.state = .WAITING := by simpa using hz
-    have := jobRefresh_stays_waiting wSpec (run wSpec (wEvents.take 34)) ("z", 0) r .all L
-      (by rw [w34_pending]; decide) hf hst (by rw [w34_wf]; decide) wJoin_kind
-      (by rw [hrows]; exact hL) hLs
-    rw [this.1, this.2, w34_wf, w34_pending]
-    exact ⟨rfl, by decide⟩
-
 theorem witness_names : namesUnique wSpec := by
   unfold namesUnique; decide
 
@@ -186,20 +103,18 @@ theorem witness_lossless : ∀ e ∈ wEvents, lossless e := by
 
 theorem witness_starts : startTasks wSpec ≠ [] := by decide
 
-theorem w19_wf : (run wSpec (wEvents.take 19)).wf = .PAUSED := by decide +kernel
-theorem w19_tasks : ((run wSpec (wEvents.take 19)).tasks.map fun r => (r.name, isCompleted r.state, r.processed)) =
-    [("a", true, true), ("b", true, true), ("j", false, true), ("e", false, false)] := by decide +kernel
 
-theorem witness_not_clean : ¬ PausedClean (run wSpec (wEvents.take 19)) := by
-  intro h
-  have h := h w19_wf
-  have hm : ("j", false, true) ∈
-      ((run wSpec (wEvents.take 19)).tasks.map fun r => (r.name, isCompleted r.state, r.processed)) := by
-    rw [w19_tasks]; simp
-  obtain ⟨r, hr, he⟩ := List.mem_map.1 hm
-  simp only [Prod.mk.injEq] at he
-  have := h r hr he.2.1
-  rw [he.2.2] at this
-  exact absurd this (by decide)
+/-! regression (defect repaired by "fix: re-opening a join resets its processed flag"): the join j
+    re-opened by the late branch is WAITING with `processed = false` at the pause, and `resume`
+    continues its second completion: the successor k is dispatched -/
+
+theorem w19_wf : (run wSpec (wEvents.take 19)).wf = .PAUSED := by decide +kernel
+
+theorem w19_tasks : ((run wSpec (wEvents.take 19)).tasks.map fun r => (r.name, isCompleted r.state, r.processed)) =
+    [("a", true, true), ("b", true, true), ("j", false, false), ("e", false, false)] := by decide +kernel
+
+theorem witness_continued :
+    (run wSpec (wEvents.take 32)).wf = .RUNNING ∧
+    Item.postStartTask ("k", 0) true ∈ (run wSpec (wEvents.take 32)).pending := by decide +kernel
 
 end Mistral.Engine.Live
